@@ -317,6 +317,28 @@ func (db *DB) Merge() error {
 		return errors.New("the number of files waiting to be merged is at least 2")
 	}
 
+	if db.opt.SyncEnable {
+		// Everything below relies on the records these files hold: a segment is
+		// removed once its live records have newer copies elsewhere. Open adopts
+		// whatever the files hold, also records that were never synced (written
+		// by a process that died, or whose Sync failed, right afterwards). They
+		// have to be durable before a file that holds their older, durable
+		// versions is removed.
+		for _, fID := range pendingMergeFIds {
+			f, err := NewDataFile(db.getDataPath(int64(fID)), db.opt.SegmentSize, db.opt.RWMode)
+			if err != nil {
+				db.isMerging = false
+				return err
+			}
+			err = f.rwManager.Sync()
+			f.rwManager.Close()
+			if err != nil {
+				db.isMerging = false
+				return err
+			}
+		}
+	}
+
 	for _, pendingMergeFId := range pendingMergeFIds {
 		off = 0
 		f, err := NewDataFile(db.getDataPath(int64(pendingMergeFId)), db.opt.SegmentSize, db.opt.RWMode)
